@@ -292,6 +292,28 @@ def alloc_rooting(rec, F):
     if ok:
         r = fn.root_of(order[0][2]["args"][1])
         ok = r[0] == "arg" and r[1] == 3
+    if not ok:
+        # the other way to keep the pending value: mark it in place during the collection, before anything is swept
+        # (`collect(context, Some(&item))` inlined: Allocator::trace(item) ahead of sweep_intern_cache and the sweeps)
+        item = sem.forward_taint(fn, {3})
+        marks = [bi for bi, t in fn.calls() if (lastseg(t["f"]) == "trace" and t["f"].startswith(ALLOC) or sem.is_trace_call(t)) and any(op_local(a) in item for a in t["args"])]
+        sweeps = [bi for bi, t in fn.calls() if t["f"].startswith(ALLOC + "::sweep")]
+        rets = [b for b in fn.reachable if fn.blocks[b]["t"]["k"] == "return"]
+        ok = bool(marks) and bool(sweeps) and all(any(fn.dominates(m, sw) for m in marks) for sw in sweeps) and not kinds.count("push")
+        if not ok and marks and sweeps and not kinds.count("push"):
+            # path-wise (the `if let Some(pending)` around the mark is decided by the Some(..) built a few lines up)
+            from .. import peval
+            try:
+                paths = peval.PEval(F, fn).run(0, {}, stop=set())
+                good = True
+                for pth in paths:
+                    seq = [ev[3] for ev in pth["events"] if ev[0] == "call" and (ev[3] in marks or ev[3] in sweeps)]
+                    first_sweep = next((i for i, b_ in enumerate(seq) if b_ in sweeps), None)
+                    if first_sweep is not None and not any(b_ in marks for b_ in seq[:first_sweep]):
+                        good = False
+                ok = good and bool(paths)
+            except peval.Limit:
+                ok = False
     rec.inst(R, "collect_garbage_with_value:push<collect<pop", ok=ok, loc=fn.loc)
     if not ok:
         rec.finding(R, "F4.alloc-root/with_value-order", "collect_garbage_with_value does not root its item before collecting and pop it after", loc=fn.loc, fn=fn.path)
